@@ -73,6 +73,9 @@ func (r *Run) VerifyGenerated(c *Corpus, props ...string) {
 	if pm["C13"] {
 		r.childrenPlacement(closures)
 	}
+	if pm["C12"] {
+		r.cssHoisting(closures)
+	}
 	for _, gc := range closures {
 		kind := "BLOCK"
 		if gc.topLevel {
@@ -768,5 +771,82 @@ func (r *Run) childrenPlacement(closures []*genClosure) {
 			r.e.addObl(o)
 			return true
 		})
+	}
+}
+
+// cssHoisting (C12, before-use half for component classes): the generator declares the items of a class expression
+// as  var v = []any{...}  and must hand exactly that variable to templ.RenderCSSItems before the attribute is written
+// from templ.CSSClasses(v) - in the same statement list, so that it runs whenever the use runs, whatever happened in
+// branches or loops before. One obligation per use.
+func (r *Run) cssHoisting(closures []*genClosure) {
+	for _, gc := range closures {
+		info := gc.pkg.TypesInfo
+		k := 0
+		var visitList func(list []ast.Stmt)
+		var visit func(n ast.Node)
+		visitList = func(list []ast.Stmt) {
+			hoisted := map[types.Object]bool{}
+			for _, st := range list {
+				// templ_7745c5c3_Err = templ.RenderCSSItems(ctx, buf, v...)
+				if as, ok := st.(*ast.AssignStmt); ok && len(as.Rhs) == 1 {
+					if call, ok := ast.Unparen(as.Rhs[0]).(*ast.CallExpr); ok {
+						if f := calleeFunc(info, call); f != nil && f.FullName() == modulePath+".RenderCSSItems" && call.Ellipsis.IsValid() && len(call.Args) == 3 {
+							if id, ok := ast.Unparen(call.Args[2]).(*ast.Ident); ok && info.Uses[id] != nil {
+								hoisted[info.Uses[id]] = true
+							}
+						}
+					}
+				}
+				// uses in this statement itself (not inside nested statement lists, which are visited on their own)
+				ast.Inspect(st, func(n ast.Node) bool {
+					switch n.(type) {
+					case *ast.BlockStmt, *ast.FuncLit, *ast.CaseClause:
+						return false
+					}
+					call, ok := n.(*ast.CallExpr)
+					if !ok || len(call.Args) != 1 {
+						return true
+					}
+					tv, ok := info.Types[call.Fun]
+					if !ok || !tv.IsType() || types.TypeString(tv.Type, nil) != modulePath+".CSSClasses" {
+						return true
+					}
+					id, ok := ast.Unparen(call.Args[0]).(*ast.Ident)
+					if !ok || info.Uses[id] == nil {
+						return true
+					}
+					k++
+					pos := gc.pkg.Fset.Position(call.Pos())
+					o := &Obligation{Name: fmt.Sprintf("%s#csshoist.%d", gc.name, k), Kind: "site", Func: gc.name, Goal: True, Verdict: "unsat", Solver: "engine", Pos: fmt.Sprintf("%s:%d", pos.Filename, pos.Line),
+						Note: "the class items " + id.Name + " are handed to templ.RenderCSSItems in the statement list of their use, before it"}
+					if !hoisted[info.Uses[id]] {
+						o.Goal, o.Verdict = False, "sat"
+						o.Note = "the class attribute is written from templ.CSSClasses(" + id.Name + "), but " + id.Name + " is not handed to templ.RenderCSSItems in the same statement list before the use: when an earlier occurrence did not run, the class name is used without its rule"
+					}
+					r.e.addObl(o)
+					return true
+				})
+				visit(st)
+			}
+		}
+		visit = func(n ast.Node) {
+			ast.Inspect(n, func(m ast.Node) bool {
+				if m == n {
+					return true
+				}
+				switch x := m.(type) {
+				case *ast.FuncLit:
+					return false // a block closure is a closure of its own
+				case *ast.BlockStmt:
+					visitList(x.List)
+					return false
+				case *ast.CaseClause:
+					visitList(x.Body)
+					return false
+				}
+				return true
+			})
+		}
+		visitList(gc.lit.Body.List)
 	}
 }
